@@ -552,6 +552,7 @@ func fullScanRuleIn(p *core.Program, r *core.Result, fn *ssa.Function, t *tables
 					}
 				}
 			}
+			scanExitRule(p, r, fn, t, rule, tn, ph, idx)
 			switch {
 			case start != wantStart:
 				r.Fail(rule, core.QualName(fn), expr, p.Pos(ia.Pos()), fmt.Sprintf("the scan starts at index %d, not at the first entry", start+map[bool]int64{true: 1, false: 0}[pre]))
@@ -640,3 +641,112 @@ func nulSkipRule(p *core.Program, a *Anchors, r *core.Result, fn *ssa.Function, 
 }
 
 func edgeExec(res *ssax.AbsResult, a, b *ssa.BasicBlock) bool { return res.EdgeExecutable(a, b) }
+
+// scanExitRule (part of N3): a scan of a name table may leave its loop only (a) by
+// its bound test, (b) under a string equality that involves the current entry
+// (the positive verdict), or (c) under `entry > name` when the table is strictly
+// ascending.  Any other early exit can stop the scan before a listed name was compared.
+func scanExitRule(p *core.Program, r *core.Result, fn *ssa.Function, t *tables.Tables, rule, tn string, ph *ssa.Phi, idx ssa.Value) {
+	hb := ph.Block()
+	inLoop := map[*ssa.BasicBlock]bool{}
+	for _, b := range fn.Blocks {
+		if b == hb || (ssax.Reachable(hb, b) && ssax.Reachable(b, hb)) {
+			inLoop[b] = true
+		}
+	}
+	sorted := func() bool {
+		for _, name := range strings.Split(tn, "|") {
+			var es []tables.Named
+			switch name {
+			case t.BlackTagsVar:
+				es = t.BlackTags
+			case t.BlacksVar:
+				es = t.Blacks
+			case t.BlackEventsVar:
+				es = t.BlackEvents
+			default:
+				return false
+			}
+			for i := 1; i < len(es); i++ {
+				if !(es[i-1].Name < es[i].Name) {
+					return false
+				}
+			}
+		}
+		return true
+	}
+	isEntry := func(v ssa.Value) bool {
+		_, ok := tableElem(v, t, 0)
+		return ok
+	}
+	for b := range inLoop {
+		iff, ok := b.Instrs[len(b.Instrs)-1].(*ssa.If)
+		if !ok {
+			// a jump or return leaving the loop from inside: judged by the facts of its block
+			exits := false
+			for _, sc := range b.Succs {
+				if !inLoop[sc] {
+					exits = true
+				}
+			}
+			_, isRet := b.Instrs[len(b.Instrs)-1].(*ssa.Return)
+			if !exits && !isRet {
+				continue
+			}
+			if !scanExitJustified(ssax.Facts(b), isEntry, sorted, ph, idx, t, tn) {
+				r.Fail(rule, core.QualName(fn), "early exit from the scan of "+tn, p.Pos(b.Instrs[len(b.Instrs)-1].Pos()), "the scan of a name table is left before its end without a match of the current entry: listed names behind this point are never compared")
+			}
+			continue
+		}
+		for i, sc := range b.Succs {
+			if inLoop[sc] {
+				continue
+			}
+			facts := append(append([]ssax.Fact{}, ssax.Facts(b)...), ssax.ExpandCond(iff.Cond, i == 0)...)
+			if !scanExitJustified(facts, isEntry, sorted, ph, idx, t, tn) {
+				r.Fail(rule, core.QualName(fn), "early exit from the scan of "+tn, p.Pos(iff.Pos()), "the scan of a name table is left before its end without a match of the current entry: listed names behind this point are never compared")
+			}
+		}
+	}
+}
+
+func scanExitJustified(facts []ssax.Fact, isEntry func(ssa.Value) bool, sorted func() bool, ph *ssa.Phi, idx ssa.Value, t *tables.Tables, tn string) bool {
+	for _, f := range facts {
+		switch c := f.Cond.(type) {
+		case *ssa.BinOp:
+			// (a) the bound test failed: idx < len(table) is false
+			if c.Op == token.LSS && !f.True && (c.X == idx || c.X == ssa.Value(ph)) {
+				if call, ok := c.Y.(*ssa.Call); ok {
+					if bi, ok := call.Common().Value.(*ssa.Builtin); ok && bi.Name() == "len" {
+						if tn2, ok := tableElem(call.Common().Args[0], t, 0); ok && tn2 == tn {
+							return true
+						}
+					}
+				}
+				if _, ok := ssax.ConstInt(c.Y); ok {
+					return true // a range over an array: constant bound
+				}
+			}
+			if !isStringType(c.X.Type()) {
+				continue
+			}
+			// (b) a match of the current entry
+			if ((c.Op == token.EQL && f.True) || (c.Op == token.NEQ && !f.True)) && (isEntry(c.X) || isEntry(c.Y)) {
+				return true
+			}
+			// (c) entry > name in a strictly ascending table
+			gt := (c.Op == token.GTR && f.True && isEntry(c.X)) || (c.Op == token.LSS && f.True && isEntry(c.Y)) ||
+				(c.Op == token.LEQ && !f.True && isEntry(c.X)) || (c.Op == token.GEQ && !f.True && isEntry(c.Y))
+			if gt && sorted() {
+				return true
+			}
+		case *ssa.Call:
+			if cf := c.Common().StaticCallee(); cf != nil && f.True && cf.Pkg != nil && cf.Pkg.Pkg.Path() == "strings" && cf.Name() == "EqualFold" {
+				if isEntry(c.Common().Args[0]) || isEntry(c.Common().Args[1]) {
+					return true
+				}
+			}
+		}
+	}
+	return false
+}
